@@ -245,6 +245,9 @@ impl FixtureDatabase {
         // Clear previous imports for this file
         self.imports.remove(&file_path);
 
+        // ... and what its previous definitions bound
+        self.definition_bindings.remove(&file_path);
+
         // Note: line_index_cache uses content-hash-based invalidation,
         // so we don't need to clear it here - get_line_index will detect
         // if the content has changed and rebuild if necessary.
@@ -439,6 +442,30 @@ impl FixtureDatabase {
 
     /// Helper to record a fixture definition in the database.
     /// Also maintains the file_definitions reverse index for efficient cleanup.
+    /// Remember what the definition at `line` binds (see `definition_bindings`).
+    fn record_definition_binding(
+        &self,
+        file_path: &Path,
+        line: usize,
+        bound_name: &str,
+        content: &str,
+        line_index: &[usize],
+    ) {
+        let line_start = line
+            .checked_sub(1)
+            .and_then(|l| line_index.get(l))
+            .copied()
+            .unwrap_or(0);
+        let indent = content
+            .get(line_start..)
+            .map(|rest| rest.len() - rest.trim_start_matches([' ', '\t']).len())
+            .unwrap_or(0);
+        self.definition_bindings
+            .entry(file_path.to_path_buf())
+            .or_default()
+            .insert(line, (indent, bound_name.to_string()));
+    }
+
     fn record_fixture_definition(&self, definition: FixtureDefinition) {
         let file_path = definition.file_path.clone();
         let fixture_name = definition.name.clone();
@@ -677,6 +704,7 @@ impl FixtureDatabase {
                 autouse,
             };
 
+            self.record_definition_binding(file_path, line, func_name, content, line_index);
             self.record_fixture_definition(definition);
 
             // Record each dependency as a usage
@@ -777,7 +805,7 @@ impl FixtureDatabase {
         &self,
         assign: &rustpython_parser::ast::StmtAssign,
         file_path: &PathBuf,
-        _content: &str,
+        content: &str,
         line_index: &[usize],
     ) {
         if let Expr::Call(outer_call) = &*assign.value {
@@ -826,6 +854,13 @@ impl FixtureDatabase {
                                 autouse: decorators::extract_fixture_autouse(&outer_call.func),
                             };
 
+                            self.record_definition_binding(
+                                file_path,
+                                line,
+                                fixture_name,
+                                content,
+                                line_index,
+                            );
                             self.record_fixture_definition(definition);
                         }
                     }
